@@ -162,3 +162,33 @@ package chain
 //@     invariant forall k string :: visited(k) ==> k in b.db.puts[b.name]
 //@     invariant forall k string :: (k in yielded) <==> (visited(k) || (k in b.db.buckets[b.name] && !(k in b.db.puts[b.name]) && !(k in b.db.dels[b.name])))
 //@   ensures [complete] !stopped ==> forall k string :: memHas(b.db, b.name, k) ==> k in yielded
+//
+// ---------------------------------------------------------------------------
+// C14 / C05: the transaction pool
+//
+// Representation invariant of the pool (one id -> position map shared by both slices):
+// every indexed id is the id of the v1 or of the v2 transaction at that position, and
+// every pooled transaction is indexed at its own position.
+//@ pred poolInv(m *Manager) = m.txpool.indices != nil
+//@   && (forall id types.TransactionID :: { id in m.txpool.indices } id in m.txpool.indices ==>
+//@        (0 <= m.txpool.indices[id] && m.txpool.indices[id] < len(m.txpool.txns) && m.txpool.txns[m.txpool.indices[id]].ID() == id)
+//@     || (0 <= m.txpool.indices[id] && m.txpool.indices[id] < len(m.txpool.v2txns) && m.txpool.v2txns[m.txpool.indices[id]].ID() == id))
+//@   && (forall i int :: { m.txpool.txns[i] } 0 <= i && i < len(m.txpool.txns) ==> (m.txpool.txns[i].ID() in m.txpool.indices) && m.txpool.indices[m.txpool.txns[i].ID()] == i)
+//@   && (forall i int :: { m.txpool.v2txns[i] } 0 <= i && i < len(m.txpool.v2txns) ==> (m.txpool.v2txns[i].ID() in m.txpool.indices) && m.txpool.indices[m.txpool.v2txns[i].ID()] == i)
+//
+//@ func (*Manager).revalidatePool
+//@   assigns heap:Manager, elems:types.Transaction, elems:types.V2Transaction, map:map[types.TransactionID]int
+//@   requires m != nil
+//@   ensures poolInv(m)
+//
+//@ func (*Manager).PoolTransaction props C14
+//@   nopanic
+//@   requires m != nil
+//@   ensures [id] result1 ==> result0.ID() == id
+//@   ensures [absent] !result1 ==> forall i int :: { m.txpool.txns[i] } 0 <= i && i < len(m.txpool.txns) ==> m.txpool.txns[i].ID() != id
+//
+//@ func (*Manager).V2PoolTransaction props C14
+//@   nopanic
+//@   requires m != nil
+//@   ensures [id] result1 ==> result0.ID() == id
+//@   ensures [absent] !result1 ==> forall i int :: { m.txpool.v2txns[i] } 0 <= i && i < len(m.txpool.v2txns) ==> m.txpool.v2txns[i].ID() != id
